@@ -51,6 +51,8 @@ def bootstrap() -> None:
         sys.path.insert(0, str(REPO))
     if str(deps) not in sys.path:
         sys.path.append(str(deps))  # last: never shadow /venv's own packages
+    if "/verif/.deps" not in sys.path:
+        sys.path.append("/verif/.deps")  # a snapshot of /verif (vp run) can use the installed copy
     src = str(REPO / "src")
     if src not in sys.path:
         sys.path.insert(0, src)
@@ -65,6 +67,24 @@ def bootstrap() -> None:
     where = Path(sdk.__file__).resolve()
     if not str(where).startswith(str((REPO / "src").resolve())):
         raise HarnessError(f"frequenz.sdk imported from {where}, not {REPO}/src")
+
+
+def ensure_icontract() -> None:
+    """icontract comes from the offline wheelhouse (MANIFEST.setup_cmd); install it lazily if absent."""
+    try:
+        import icontract  # noqa: F401
+        return
+    except ImportError:
+        pass
+    import subprocess
+
+    target = VERIF / ".deps"
+    target.mkdir(exist_ok=True)
+    subprocess.run(["/venv/bin/pip", "install", "-q", "--no-index", "--find-links", "/opt/veriftools/wheels",
+                    "--target", str(target), "icontract"], check=False, capture_output=True)
+    import importlib
+
+    importlib.invalidate_caches()
 
 
 def canon(obj: Any) -> str:
